@@ -8,6 +8,8 @@ ops (points `n<k>`, segments `w<way>.<first>.<last>`, integer weights/distances,
   `world <kind> [p …]`                             answer `[pt/seg/first/last/usable/weight …]`  (recorded)
   `search <o> <max> zu=<0|1> bf=[p:d …]`           answer `[p:d:origin/seg-dest-cost/… …]` sorted by p
   `searchto <o> <to> <max> zu=<0|1> bf=[p:d …]`    answer as above (all `byPoint` entries after `ExpandSearchTo`)
+  `access <o> <max> zu=<0|1> bf=[p:d …]`           answer `[p:d …] | [seg:n …]`: `ComputeAccessibility`'s distance for
+                                                   every point the search reached, and its per-segment path counts
 
 `bf` = Bellman–Ford distances computed by the harness over the same adjacency (no limit): the reference for
 the property predicate.  `zu` = outcome of the connectivity probe of `NewShortestPathSearchFromPoint`.
@@ -164,6 +166,41 @@ def searchToPredicate (w : World) (o dest : String) (max : Nat) (bf : List (Stri
   if ans.any (fun en => en.dist != Dist.inf && !routeOk w o en) then some "route" else
   none
 
+/-! `ComputeAccessibility` -/
+
+/-- `w<way>.<a>.<b>` with the direction dropped (`a ≤ b`), as `FillCountsAndDistancesFromPaths` keys its counts -/
+def undirected (seg : String) : String :=
+  match seg.splitOn "." with
+  | [w, a, b] => match a.toNat?, b.toNat? with
+    | some x, some y => if y < x then s!"{w}.{b}.{a}" else seg
+    | _, _ => seg
+  | _ => seg
+
+def bump (m : List (String × Nat)) (k : String) : List (String × Nat) :=
+  if m.any (·.1 == k) then m.map (fun (a, n) => if a == k then (a, n + 1) else (a, n)) else m ++ [(k, 1)]
+
+/-- distances of all entries and, per undirected segment, the number of entries whose route uses it -/
+def renderAccess (t : T) : String :=
+  let ds := (t.map fun (p, e) => (p, s!"{p}:{e.dist}")).mergeSort (fun a b => strLe a.1 b.1)
+  let counts := t.foldl (fun m (p, _) =>
+    match buildRoute t (t.length + 1) p [] with
+    | some (_, steps) => steps.foldl (fun m st => bump m (undirected st.via.seg)) m
+    | none => bump m "loop") []
+  let cs := counts.mergeSort (fun a b => strLe a.1 b.1)
+  renderList (ds.map (·.2)) ++ " | " ++ renderList (cs.map fun (k, n) => s!"{k}:{n}")
+
+def accessPredicate (w : World) (o : String) (max : Nat) (bf : List (String × Nat)) (impl : String) :
+    Option String :=
+  match impl.splitOn " | " with
+  | [dText, _] =>
+    match parseBF dText with      -- non-integer / missing distances do not parse
+    | none => some "distance"
+    | some ds =>
+      if ds.any (fun (p, d) => lookupBF bf p != some d) then some "distance" else
+      if bf.any (fun (p, d) => d < max && !(p == o && !onNetwork w o) && !(ds.any (·.1 == p)))
+        then some "complete" else none
+  | _ => some "distance"
+
 def judge (impl model : String) (clause : Option String) : Verdict :=
   match clause with
   | some c => .propfail c
@@ -210,6 +247,22 @@ def step (w : World) (op impl : String) : World × Verdict :=
         match words head, parseBF bfText with
         | ["search", _, _, _], some _ => (w, .propfail "distance")
         | _, _ => (w, .bad)
+  | "access" :: _ =>
+    match splitBF op with
+    | none => (w, .bad)
+    | some (head, bfText) =>
+      match words head, parseBF bfText with
+      | ["access", o, maxS, zuS], some bf =>
+        match parseNat? maxS, w.ok, (zuS == "zu=1" || zuS == "zu=0") with
+        | some max, true, true =>
+          let origins := if zuS == "zu=1" then [o] else []
+          match search w.graph max origins (4 * (w.points.length + 4)) with
+          | .done s' =>
+            if !allVisited s'.t then (w, .bad) else
+            (w, judge impl (renderAccess s'.t) (accessPredicate w o max bf impl))
+          | _ => (w, .bad)
+        | _, _, _ => (w, .bad)
+      | _, _ => (w, .bad)
   | "searchto" :: _ =>
     match splitBF op with
     | none => (w, .bad)
